@@ -197,11 +197,17 @@ func checkC12(c *run.Ctx) {
 		}
 		sp := c12Spec{Command: str("command"), Label: str("label"), Key: str("key_outofscope"),
 			MatrixExtra: str("matrix_outofscope"), AdjExtra: str("matrix_outofscope"), SigValue: str("signature_outofscope")}
-		for k, m := 0, r.IntN(4); k < m; k++ {
+		nenv, nplug := r.IntN(4), r.IntN(3)
+		if i%12 == 0 {
+			// a large step: 17-40 plugins and env entries together
+			nenv, nplug = 5+r.IntN(20), 8+r.IntN(16)
+			c.Count("large_steps_17_or_more_plugins_and_env", 1)
+		}
+		for k, m := 0, nenv; k < m; k++ {
 			sp.EnvNames = append(sp.EnvNames, str("envname_outofscope"))
 			sp.EnvVals = append(sp.EnvVals, str("envvalue"))
 		}
-		for k, m := 0, r.IntN(3); k < m; k++ {
+		for k, m := 0, nplug; k < m; k++ {
 			sp.PlugSources = append(sp.PlugSources, str("pluginsource"))
 			sp.PlugCfg = append(sp.PlugCfg, val("pluginconfig", 0))
 		}
